@@ -28,6 +28,7 @@ from __future__ import annotations
 import logging
 import sys
 import typing
+import weakref
 
 import trio
 
@@ -78,6 +79,8 @@ class TrioEventLoop(EventLoop):
         self._idle_handle = 0
         self._idle_callbacks: dict[int, Callable[[], typing.Any]] = {}
         self._pending_tasks: list[tuple[Callable[_Spec, Awaitable], trio.CancelScope, _Spec.args]] = []
+
+        self._cancelled_scopes: weakref.WeakSet[trio.CancelScope] = weakref.WeakSet()
 
         self._nursery: trio.Nursery | None = None
 
@@ -150,7 +153,10 @@ class TrioEventLoop(EventLoop):
             True if the scope was cancelled, False if it was cancelled already
             before invoking this function
         """
-        existed = not scope.cancel_called
+        # CancelScope.cancel_called needs a running Trio loop (it checks the deadline against the Trio
+        # clock), but alarms and watches may be removed before run() or between two run() calls.
+        existed = scope not in self._cancelled_scopes
+        self._cancelled_scopes.add(scope)
         scope.cancel()
         return existed
 
